@@ -9,6 +9,7 @@ fuel sets `oof`".
 -/
 import Ggql.Proofs.ScanLemmas
 import Ggql.Proofs.ScanTotal
+import Ggql.Proofs.ExeTotal
 import Ggql.Model.SdlCF
 import Ggql.Model.ExeCF
 namespace Ggql.C03
@@ -61,6 +62,18 @@ theorem C03_readDirs_total (hnum : ∀ b, isNumStart b = true → cm.isNum b = t
 theorem C03_readArgValues_total (hnum : ∀ b, isNumStart b = true → cm.isNum b = true) (p : P) (h : p.oof = false) :
     (readArgValues cm p).2.oof = false := by
   rw [(readArgValues_le cm hnum p).1]; exact h
+
+/-! ### the executable-document scanner always returns -/
+
+/-- **C03_parseExe_total.**  For every byte string given as a request document, every reader ending, both
+members of the family (with and without the variable-type guard of D05) and every set of known type
+names: `parseExe` returns — the model never runs out of the fuel `2·|input| + 8`.  This covers the 5
+loops and the 5-function recursion of `exeparser.go` (operations, variable definitions, selection sets,
+fields, fragments) on top of the shared scanner. -/
+theorem C03_parseExe_total (hnum : ∀ b, isNumStart b = true → cm.isNum b = true) (cfg : ExeCF.Cfg)
+    (bytes : List UInt8) (tail : Tail) :
+    (ExeCF.parseExe cm cfg (sdlFuel bytes) bytes tail).2.oof = false :=
+  ExeCF.parseExe_total cm cfg hnum bytes tail
 
 /-! ### D01: a stray closing brace at top level spins `parseSDL` for ever -/
 
